@@ -36,7 +36,7 @@ EXC_PARENT = {
     'RuntimeError': 'Exception', 'NotImplementedError': 'RuntimeError',
     'StructError': 'Exception', 'PacketError': 'Exception', 'ByteBoundaryError': 'Exception',
     'SyntaxError': 'Exception', 'ImportError': 'Exception', 'StopIteration': 'Exception',
-    'OSError': 'Exception', 'NameError': 'Exception', 'UnboundLocalError': 'NameError',
+    'OSError': 'Exception', 'FileNotFoundError': 'OSError', 'NameError': 'Exception', 'UnboundLocalError': 'NameError',
 }
 
 
@@ -119,7 +119,8 @@ class Contract:
                  role=False, pure=False, noraise_ok=True, ghost=None, cases=None, free_requires=(),
                  known=None, defaults=None, ghost_init=None, varkw=None, ghost_kinds=None,
                  call_asserts=None, call_ghost=None, call_effects=None, target=None, closure=None,
-                 body_after_assign=None, locals_in=None, env=False, prefix_checks=None):
+                 body_after_assign=None, locals_in=None, env=False, prefix_checks=None,
+                 crash_invariant=None, rely=None):
         self.name = name
         self.target = target or name    # qualified name of the code this contract is checked against
         self.closure = closure or {}    # free variables of a lambda / nested function: name -> kind
@@ -130,6 +131,11 @@ class Contract:
         self.locals_in = locals_in or {}
         self.env = env                  # the function talks to the environment model (pyvc/envmodel.py)
         self.prefix_checks = prefix_checks or []   # syntactic facts about the dropped prefix that the preconditions rely on
+        # crash safety: this spec must hold after EVERY state-changing operation on the environment (every crash point)
+        self.crash_invariant = crash_invariant
+        # concurrency (rely/guarantee): before every operation on the environment, other processes may have changed
+        # the file system in any way that keeps this spec true (and never touches this process' own temporary files)
+        self.rely = rely
         self.params = params            # ordered dict name -> kind
         self.requires = list(requires)
         self.free_requires = list(free_requires)   # assumed on entry, not asserted at call sites
